@@ -63,12 +63,57 @@ class Ctx:
         return {"fn": body.name, "bb": bb, "loc": C.loc(span) if span else C.loc(body.span)}
 
     def role(self, prog, suffix):
-        """crate-private role -> Body; anchor-missing recorded (and None returned) if it does not resolve"""
+        """crate-private role -> Body; anchor-missing recorded (and None returned) if it does not resolve.
+        A role whose module path changed (item moved to another module / module renamed) still resolves through its
+        last two path segments (`Type::method`, or `module::function`) when that is unique in the crate."""
         try:
             return prog.one(suffix)
         except C.AnchorMissing as e:
+            alt = resolve_moved(prog, suffix)
+            if alt is not None:
+                return alt
             self.anchor_missing(str(e))
             return None
+
+
+def _tail(name, n):
+    """last n `::` segments of a def path (generic/impl brackets kept intact)"""
+    segs, depth, cur = [], 0, ""
+    i = 0
+    while i < len(name):
+        ch = name[i]
+        if ch in "<([":
+            depth += 1
+        elif ch in ">)]":
+            depth -= 1
+        if name.startswith("::", i) and depth == 0:
+            segs.append(cur)
+            cur = ""
+            i += 2
+            continue
+        cur += ch
+        i += 1
+    segs.append(cur)
+    return "::".join(segs[-n:])
+
+
+def resolve_moved(prog, path):
+    if path.startswith("<"):
+        # trait impl method `<T as Trait>::m`: accept a unique body with the same trait and method whose self type has the same last segment
+        return None
+    t2 = _tail(path, 2)
+    if "::" not in t2:
+        return None
+    cands = [b for n, b in prog.bodies.items() if b.kind != "Closure" and not n.startswith("<") and _tail(n, 2) == t2]
+    if len(cands) == 1:
+        return cands[0]
+    if not cands:
+        # a free function whose module was renamed: unique by its own name among free functions (kind Fn)
+        t1 = _tail(path, 1)
+        c1 = [b for n, b in prog.bodies.items() if b.kind == "Fn" and _tail(n, 1) == t1]
+        if len(c1) == 1:
+            return c1[0]
+    return None
 
 
 class Rule:
@@ -105,6 +150,8 @@ def load_known():
 
 
 def run_rules(pid, tier, progs, extra=None, only=None):
+    import common
+    common.resolve_roles(progs["lib"])
     ctx = Ctx(pid, tier, progs, extra)
     for r in PROPERTIES[pid]["rules"]:
         if only and r.rid not in only:
